@@ -503,4 +503,208 @@ theorem choiceRegister_Evo {cfg : Cfg} (hg : CfgGood cfg) (f : Nat) (cls : List 
     · intro c; rw [iR c, hR c, readChans_select_cons]; exact or_assoc
     · intro c; rw [iW c, hW c, writeChans_select_cons]; exact or_assoc
 
+/-! ### close -/
+
+theorem chanClose_Evo {cfg : Cfg} (hcc : cfg.closeChecksSched = true) {w : World} {f c : Nat}
+    (hm : WM w) (hcur : w.current = some f) (hq : WQuiet w f) : Evo (some f) w (chanClose cfg w c) := by
+  by_cases hcl : (w.chans c).closed = true
+  · have : chanClose cfg w c = w := by unfold chanClose; simp [hcl]
+    rw [this]; exact Evo.refl _ _
+  · have hopen : (w.chans c).closed = false := by simpa using hcl
+    let w0 := setChan w c { (w.chans c) with closed := true, readPending := [], writePending := [] }
+    let w1 := (w.chans c).writePending.foldl (closeWake cfg c true) w0
+    let wf := (w.chans c).readPending.foldl (closeWake cfg c false) w1
+    have hwf : chanClose cfg w c = wf := by unfold chanClose; simp [hcl]; rfl
+    have hE0 : Evo (some f) w0 wf :=
+      (fold_Evo (some f) _ (closeWake_isSched cfg c true) (w.chans c).writePending w0).trans
+        (fold_Evo (some f) _ (closeWake_isSched cfg c false) (w.chans c).readPending w1)
+    obtain ⟨c1, _, _, _⟩ := fold_misc _ (closeWake_isSched cfg c true) (w.chans c).writePending w0
+    obtain ⟨c2, _, _, _⟩ := fold_misc _ (closeWake_isSched cfg c false) (w.chans c).readPending w1
+    have hchf : wf.chans = w0.chans := c2.trans c1
+    have hw0c : (w0.chans c).readPending = [] ∧ (w0.chans c).writePending = [] := by simp [w0, setChan]
+    have hw0o : ∀ c', c' ≠ c → w0.chans c' = w.chans c' := by intro c' hc'; simp [w0, setChan, hc']
+    unfold WM at hm
+    have hbump : ∀ p, p ∈ (w.chans c).readPending ∨ p ∈ (w.chans c).writePending →
+        p.sched ≠ (w.fibers p.fiber).sched ∨ (w.fibers p.fiber).sched < (wf.fibers p.fiber).sched := by
+      intro p hp
+      by_cases hl : p.sched = (w.fibers p.fiber).sched
+      · right
+        have hle : liveEntry w.fibers w.ent p.fiber := ⟨c, p, (mem_ent w c p).mpr hp, rfl, hl⟩
+        have hgf : p.fiber ≠ f := fun e => hq.2.2 (e ▸ hle)
+        have hpend : (w.fibers p.fiber).status = .pending := by
+          cases hst : (w.fibers p.fiber).status with
+          | pending => rfl
+          | _ =>
+            exfalso
+            refine (hm.d2 p.fiber (by rw [hst]; intro c; cases c) ?_).2 hle
+            rw [hcur]; intro c; exact hgf (Option.some.inj c).symm
+        have hres : fiberCanResume (w.fibers p.fiber) = true := by unfold fiberCanResume; rw [hpend]
+        have hcan := not_canceled_of_liveEntry hm p.fiber (Or.inl hle)
+        have hw := (chanClose_wakes_all cfg w c hopen p
+          (by rcases hp with h | h; exact Or.inr h; exact Or.inl h) hl hres hcan).2.2.2
+        rw [hwf] at hw
+        exact hw
+      · exact Or.inl hl
+    rw [hwf]
+    refine ⟨⟨hE0.1.mono, ?_, ?_, ?_, ?_⟩, (EvoS.of_same rfl rfl rfl : EvoS (some f) w w0).trans hE0.2⟩
+    · intro c' p hp
+      rw [hchf] at hp
+      by_cases e : c' = c
+      · subst e; rw [hw0c.1] at hp; simp at hp
+      · rw [hw0o c' e] at hp; exact Or.inl hp
+    · intro c' p hp
+      rw [hchf] at hp
+      by_cases e : c' = c
+      · subst e; rw [hw0c.2] at hp; simp at hp
+      · rw [hw0o c' e] at hp; exact Or.inl hp
+    · intro c' p hp hnp
+      rw [hchf] at hnp
+      by_cases e : c' = c
+      · subst e; exact hbump p (Or.inl hp)
+      · rw [hw0o c' e] at hnp; exact absurd hp hnp
+    · intro c' p hp hnp
+      rw [hchf] at hnp
+      by_cases e : c' = c
+      · subst e; exact hbump p (Or.inr hp)
+      · rw [hw0o c' e] at hnp; exact absurd hp hnp
+
+/-! ### await, finish, the loop phases -/
+
+theorem awaitFiber_Evo (w : World) (f : Nat) : Evo (some f) w (awaitFiber w f) := by
+  have hs : ∀ g, ((awaitFiber w f).fibers g).sched = (w.fibers g).sched := by
+    intro g; by_cases e : g = f <;> simp [awaitFiber, setFiber, e]
+  refine ⟨EvoQ.of_chans rfl (fun g => by rw [hs]; exact Nat.le_refl _), fun g => by rw [hs]; exact Nat.le_refl _,
+    fun t h => Or.inl h, fun t h => Or.inl h, ?_⟩
+  intro g h
+  by_cases e : g = f
+  · right; rw [e]
+  · left; simpa [awaitFiber, setFiber, e] using h
+
+theorem finishFiber_Evo (cur : Option Nat) (w : World) (f : Nat) (err : Bool) : Evo cur w (finishFiber w f err) := by
+  have hs : ∀ g, ((finishFiber w f err).fibers g).sched = (w.fibers g).sched := by
+    intro g; by_cases e : g = f <;> simp [finishFiber, setFiber, e]
+  refine ⟨EvoQ.of_chans rfl (fun g => by rw [hs]; exact Nat.le_refl _), fun g => by rw [hs]; exact Nat.le_refl _,
+    fun t h => Or.inl h, fun t h => Or.inl h, ?_⟩
+  intro g h
+  by_cases e : g = f
+  · subst e; cases err <;> simp [finishFiber, setFiber] at h
+  · left; simpa [finishFiber, setFiber, e] using h
+
+theorem loopRunTask_Evo (w : World) : Evo none w (loopRunTask w).1 := by
+  rcases loopRunTask_cases w with ⟨_, he⟩ | ⟨t, rest, hq, hr, ht, hc, hoth, hs, _, hcase⟩
+  · rw [he]; exact Evo.refl _ _
+  · have hsall : ∀ h, ((loopRunTask w).1.fibers h).sched = (w.fibers h).sched := by
+      intro h; by_cases e : h = t.fiber
+      · rw [e]; exact hs
+      · rw [hoth h e]
+    refine ⟨EvoQ.of_chans hc (fun g => by rw [hsall]; exact Nat.le_refl _), fun g => by rw [hsall]; exact Nat.le_refl _,
+      fun u h => by rw [ht] at h; exact Or.inl h, fun u h => by rw [hr] at h; rw [hq]; exact Or.inl (List.mem_cons_of_mem _ h), ?_⟩
+    intro g h
+    left
+    by_cases e : g = t.fiber
+    · subst e
+      rcases hcase with ⟨_, _, hst⟩ | ⟨_, _, _, hst⟩
+      · rw [hst] at h; exact h
+      · rw [hst] at h; cases h
+    · rw [hoth g e] at h; exact h
+
+theorem Evo_timers_sub (w : World) (clk : Nat) (tm : List Timer) (h : ∀ t ∈ tm, t ∈ w.timers) :
+    Evo none w { w with clock := clk, timers := tm } :=
+  ⟨EvoQ.of_chans rfl (fun g => Nat.le_refl _), fun g => Nat.le_refl _, fun t ht => Or.inl (h t ht), fun t h => Or.inl h,
+    fun g h => Or.inl h⟩
+
+theorem loopTimers_Evo (w : World) : Evo none w (loopTimers w) := by
+  unfold loopTimers
+  exact (Evo_timers_sub w _ _ (fun t h => mem_of_mem_dropWhile' _ _ t h)).trans
+    (fold_Evo none fireTimer fireTimer_isSched _ _)
+
+theorem loopPollDrop_Evo (w : World) : Evo none w (loopPollDrop w) := by
+  refine ⟨EvoQ.of_chans rfl (fun g => Nat.le_refl _), fun g => Nat.le_refl _, ?_, fun t h => Or.inl h, fun g h => Or.inl h⟩
+  intro t h; exact Or.inl (mem_of_mem_dropWhile' _ _ t h)
+
+theorem Evo_timer_insert (w : World) (f : Nat) (t : Timer) (clk : Nat) (sc : Nat → Bool) (cr : Option Nat)
+    (htf : t.fiber = f) :
+    Evo (some f) w { w with clock := clk, scopes := sc, current := cr, timers := insertTimer t w.timers } := by
+  refine ⟨EvoQ.of_chans rfl (fun g => Nat.le_refl _), fun g => Nat.le_refl _, ?_, fun t h => Or.inl h, fun g h => Or.inl h⟩
+  intro u hu
+  rcases (mem_insertTimer t w.timers u).mp hu with e | e
+  · right; rw [e, htf]
+  · exact Or.inl e
+
+/-! ### every transition -/
+
+theorem step_Evo {cfg : Cfg} (hg : CfgGood cfg) (w : World) (a : Action) (hns : a.noSelfMatch) (hi : WInv w) :
+    Evo w.current w (step cfg w a).1 := by
+  obtain ⟨hm, hqq⟩ := hi
+  have hnc : NC w := NC_of_WM hm
+  unfold step
+  cases hcur : w.current with
+  | none =>
+    cases a with
+    | runTask => exact loopRunTask_Evo w
+    | timers => exact loopTimers_Evo w
+    | poll => exact loopPollDrop_Evo w
+    | scopeEnd s => exact Evo.of_ghost rfl rfl rfl rfl
+    | _ => exact Evo.refl _ _
+  | some f =>
+    have hq : WQuiet w f := hqq f hcur
+    cases a with
+    | runTask => exact Evo.refl _ _
+    | timers => exact Evo.refl _ _
+    | poll => exact Evo.refl _ _
+    | scopeEnd s => exact Evo.of_ghost rfl rfl rfl rfl
+    | go g =>
+      simp only []
+      split
+      · exact scheduleGeneral_Evo _ w g .nil .ok
+      · exact Evo.refl _ _
+    | cancel g =>
+      simp only []
+      split
+      · exact Evo.refl _ _
+      · exact scheduleGeneral_Evo _ w g .errCancel .error
+    | deadline s ms =>
+      simp only []
+      exact Evo_timer_insert w f ⟨f, (w.fibers f).sched, w.clock + w.clockStep + ms, false, some s⟩ _ _ _ rfl
+    | sleep ms =>
+      simp only []
+      exact (Evo_timer_insert w f ⟨f, (w.fibers f).sched, w.clock + w.clockStep + ms, false, none⟩ _ w.scopes _ rfl).trans
+        (awaitFiber_Evo _ f)
+    | finish e => exact finishFiber_Evo _ w f e
+    | close c => exact chanClose_Evo hg.closeChecks hm hcur hq
+    | give c x =>
+      simp only []
+      cases hp : chanPush cfg w f c x 0 with
+      | closedErr => exact finishFiber_Evo _ w f true
+      | ok w1 b =>
+        have hE := chanPush_Evo hg.strict hp (fun p hp hs => hnc c p ((mem_ent w c p).mpr (Or.inl hp)) hs)
+        cases b with
+        | true => exact hE.trans (awaitFiber_Evo w1 f)
+        | false => exact hE
+    | take c =>
+      simp only []
+      have hpe := chanPop_Evo hg.skips (w := w) (f := f) (c := c) (mode := 0) (by decide)
+      have hncw : ∀ p ∈ (w.chans c).writePending, p.sched = (w.fibers p.fiber).sched →
+          (w.fibers p.fiber).canceled = false :=
+        fun p hp hs => hnc c p ((mem_ent w c p).mpr (Or.inr hp)) hs
+      cases hp : chanPop cfg w f c 0 with
+      | blocked w1 => exact (hpe.2 w1 hp).trans (awaitFiber_Evo w1 f)
+      | got w1 r =>
+        have h1 := hpe.1 w1 r hp hncw
+        cases r with
+        | none => exact (h1.trans (scheduleGeneral_Evo _ w1 f .nil .ok)).trans (awaitFiber_Evo _ f)
+        | some x => exact (h1.trans (scheduleGeneral_Evo _ w1 f (.num x) .ok)).trans (awaitFiber_Evo _ f)
+    | select cls =>
+      cases cls with
+      | nil => exact Evo.refl _ _
+      | cons cl0 cls0 =>
+        simp only []
+        have hnd : ((cl0 :: cls0).map Clause.chan).Nodup := hns
+        generalize cl0 :: cls0 = cls at hnd
+        cases hci : choiceImmediate cfg w f cls with
+        | some r => exact choiceImmediate_Evo hg f cls w r.1 r.2 hci hnc
+        | none =>
+          have hcond := choiceImmediate_none hg w f cls hci
+          exact (choiceRegister_Evo hg f cls w hcond hnd).1.trans (awaitFiber_Evo _ f)
+
 end JanetModel.Ev
